@@ -1,9 +1,11 @@
 package main
 
 import (
+	"fmt"
 	"go/ast"
 	"go/token"
-	"go/types"
+
+	"golang.org/x/tools/go/ssa"
 )
 
 // resolvePasses (part of R-RESOLVE-OWNER, C16): every pass of the type-inference fixpoint sees the
@@ -81,109 +83,114 @@ func resolvePasses(c *Ctx) {
 		c.check(bad == token.NoPos, "resolve-pass:identical", bad, "Resolve never changes the visitor between passes",
 			"Resolve writes a field of the type-inference visitor after constructing it: later passes of the fixpoint run differently from the first (for example visiting only part of the program)")
 	}
-	// ---- UNIFY
-	vd := c.funcDecl("internal/resolver", "mainVisitor.Visit")
-	if vd == nil {
-		c.undecided("anchor:mainVisitor.Visit", token.NoPos, "mainVisitor.Visit not found")
+	// ---- UNIFY: one iteration of the loop over a user call's arguments, evaluated on the SSA form for "the
+	// argument is a variable" with the callee native / not native: every path back to the loop head (or out of
+	// the function) has recorded a type (recordVar) - or ended in the conflict panic
+	rpkg := c.ssaPkg("internal/resolver")
+	type loopSite struct {
+		fn   *ssa.Function
+		body *ssa.BasicBlock
+		head *ssa.BasicBlock
+	}
+	var sites []loopSite
+	for _, fn := range c.srcFuncs("internal/resolver") {
+		for _, b := range fn.Blocks {
+			for _, in := range b.Instrs {
+				ia, ok := in.(*ssa.IndexAddr)
+				if !ok {
+					continue
+				}
+				ld, ok := ia.X.(*ssa.UnOp)
+				if !ok || ld.Op != token.MUL {
+					continue
+				}
+				f, x := fieldOfAddr(ld.X)
+				if f == nil || f.Name() != "Args" || !isNamed(deref(x.Type()), modPath+"/internal/ast", "UserCallExpr") {
+					continue
+				}
+				// the loop head: the block that defines the index (a phi) - the body's dominating predecessor
+				var head *ssa.BasicBlock
+				idx := ia.Index
+				if bo, isBo := idx.(*ssa.BinOp); isBo {
+					idx = bo.X
+				}
+				if ph, isPhi := idx.(*ssa.Phi); isPhi {
+					head = ph.Block()
+				}
+				if head != nil {
+					sites = append(sites, loopSite{fn, b, head})
+				}
+			}
+		}
+	}
+	if rpkg == nil || len(sites) == 0 {
+		c.undecided("anchor:user-call-args", token.NoPos, "no loop over the arguments of a user call found in the resolver (SSA)")
 		return
 	}
-	var loop *ast.RangeStmt
-	ast.Inspect(vd.Body, func(n ast.Node) bool {
-		cc, ok := n.(*ast.CaseClause)
-		if !ok || len(cc.List) != 1 {
-			return true
-		}
-		if t := info.TypeOf(cc.List[0]); t == nil || !isNamed(deref(t), modPath+"/internal/ast", "UserCallExpr") {
-			return true
-		}
-		for _, st := range cc.Body {
-			if r, ok := st.(*ast.RangeStmt); ok {
-				if se, ok := r.X.(*ast.SelectorExpr); ok && se.Sel.Name == "Args" {
-					loop = r
-				}
+	nRec := 0
+	for _, site := range sites {
+		calls := false
+		allInstrs(site.fn, func(in ssa.Instruction) {
+			if callsNamed(in, "recordVar") {
+				calls = true
 			}
+		})
+		if !calls {
+			continue // a loop that does not take part in type inference (call-graph construction)
 		}
-		return false
-	})
-	if loop == nil {
-		c.undecided("anchor:user-call-args", vd.Pos(), "the argument loop of the user-call case not found")
-		return
-	}
-	// continues: each must be the last statement of a top-level `if` of the loop body whose condition is `!ok` (type assertion to *ast.VarExpr failed) or `<x>.Native`
-	okConts, badCont := 0, token.NoPos
-	var walk func(list []ast.Stmt, allowed bool)
-	walk = func(list []ast.Stmt, allowed bool) {
-		for i, st := range list {
-			switch s := st.(type) {
-			case *ast.BranchStmt:
-				if s.Tok == token.CONTINUE {
-					if allowed && i == len(list)-1 {
-						okConts++
-					} else {
-						badCont = s.Pos()
+		nRec++
+		for _, native := range []bool{false, true} {
+			e := &sengine{pkg: rpkg, stopBlocks: map[*ssa.BasicBlock]bool{site.head: true}}
+			e.typeAssert = func(fr *sframe, x *ssa.TypeAssert, v iv) (iv, bool) {
+				if nm := named(deref(x.AssertedType)); nm != nil && nm.Obj().Name() == "VarExpr" {
+					if x.CommaOk {
+						return ivTuple(ivSym("var"), ivBool(true)), true
 					}
+					return ivSym("var"), true
 				}
-			case *ast.IfStmt:
-				cond := types.ExprString(s.Cond)
-				isGuard := cond == "!ok" || (len(cond) > 7 && cond[len(cond)-7:] == ".Native")
-				// only top-level guards of the loop body are allowed to end in continue
-				walk(s.Body.List, isGuard && sameList(list, loop.Body.List))
-				if s.Else != nil {
-					if b, ok := s.Else.(*ast.BlockStmt); ok {
-						walk(b.List, false)
-					}
-				}
-			case *ast.BlockStmt:
-				walk(s.List, false)
-			case *ast.SwitchStmt:
-				for _, cs := range s.Body.List {
-					walk(cs.(*ast.CaseClause).Body, false)
-				}
-			case *ast.ForStmt:
-				// a nested loop has its own continue
-			case *ast.RangeStmt:
+				return iv{}, false
 			}
+			e.load = func(p *spath, fr *sframe, addr iv, in *ssa.UnOp) (iv, bool) {
+				if f, x := fieldOfAddr(in.X); f != nil && f.Name() == "Native" && isNamed(deref(x.Type()), modPath+"/internal/resolver", "FuncInfo") {
+					return ivBool(native), true
+				}
+				return iv{}, false
+			}
+			e.call = func(p *spath, fr *sframe, call *ssa.Call, callee *ssa.Function, args []iv) (iv, callAction) {
+				if callee != nil && callee.Name() == "recordVar" {
+					p.notes["recordVar"]++
+					return iv{}, callHandled
+				}
+				return iv{}, callDefault
+			}
+			e.enter = func(callee *ssa.Function, args []iv) bool { return false }
+			e.startAt(site.fn, site.body, nil)
+			paths, silent := 0, 0
+			for _, o := range e.outcomes {
+				if o.panicked {
+					continue
+				}
+				paths++
+				if o.notes["recordVar"] == 0 {
+					silent++
+				}
+			}
+			key := "resolve-pass:unify-all"
+			what := "a function defined in the program"
+			if native {
+				key = "resolve-pass:unify-native"
+				what = "a native function"
+			}
+			if len(e.problems) > 0 {
+				c.undecided(key, site.fn.Pos(), "the argument loop could not be evaluated: %v", e.problems)
+				continue
+			}
+			c.check(paths > 0 && silent == 0, key, site.fn.Pos(),
+				fmt.Sprintf("a variable passed to %s: each of the %d paths through one iteration records a type (or raises the conflict)", what, paths),
+				fmt.Sprintf("the argument loop of the user-call case lets a variable argument of %s pass on %d of %d paths without recording anything: that variable never meets the type of the parameter it is passed to, so a conflict goes unreported or an array parameter stays untyped (and the compiled call fails at run time)", what, silent, paths))
 		}
 	}
-	walk(loop.Body.List, false)
-	c.check(badCont == token.NoPos && okConts == 2, "resolve-pass:unify-all", loop.Pos(),
-		"only non-variable arguments and arguments of native functions leave the loop body early",
-		"the argument loop of the user-call case skips an argument under a condition other than 'not a variable' or 'native function': that variable argument never meets the type of the parameter it is passed to, so a conflict goes unreported or an array parameter stays untyped (and the compiled call fails at run time)")
-	// the final statement is a switch with a default whose clauses all record or panic
-	var sw *ast.SwitchStmt
-	if n := len(loop.Body.List); n > 0 {
-		sw, _ = loop.Body.List[n-1].(*ast.SwitchStmt)
-	}
-	good := sw != nil
-	hasDefault := false
-	if sw != nil {
-		for _, cs := range sw.Body.List {
-			cc := cs.(*ast.CaseClause)
-			if cc.List == nil {
-				hasDefault = true
-			}
-			acts := false
-			for _, st := range cc.Body {
-				ast.Inspect(st, func(n ast.Node) bool {
-					if call, ok := n.(*ast.CallExpr); ok {
-						if isIdent(call.Fun, "panic") {
-							acts = true
-						}
-						if se, ok := call.Fun.(*ast.SelectorExpr); ok && se.Sel.Name == "recordVar" {
-							acts = true
-						}
-					}
-					return true
-				})
-			}
-			if !acts {
-				good = false
-			}
-		}
-	}
-	c.check(good && hasDefault, "resolve-pass:unify-switch", loop.Pos(),
-		"the unification switch is total: every clause records a type or raises the conflict",
-		"the unification of a variable argument with its parameter is no longer a total switch whose every clause records a type or raises the conflict")
+	c.atLeast("argument loops of user calls that infer types", nRec, 1)
 }
 
 func sameList(a, b []ast.Stmt) bool {
